@@ -323,7 +323,7 @@ _ADDENDA = {
            'alternatives, for every separator spelling; (R7, pipeline table) union / complement / intersection laws on HTML and XML trees. (R7 also) the same laws one level down - :is(X:is(A)), :where(...), :not(X:is(A), b), "of X:is(A)" - and for lists of up to nine alternatives (type selectors under a default namespace, classes, ids, mixed) bare, inside :is(), *|*:not() and "of S". (R7 also) the laws with 26 state / text pseudo-classes and id selectors as operands on a form tree (html.parser-like and XHTML flavours). (R7 also) four levels of nested :is() / :where() / :not() change nothing.',
     'C06': '(R6, texts compiled by interpretation) every sequence of up to two (thorough: three) fragments of a 57-fragment alphabet and '
            '~110 hand-picked malformed texts and custom maps compile or raise SelectorSyntaxError / NotImplementedError; (R7) no parser-side '
-           'regex is exponentially ambiguous. (R2) standard-library functions that raise on part of their domain (unicodedata.name without default, itertools.islice with a possibly negative bound, json / codecs / math ...) and str.encode without an error handler are partial operations like int() / chr().',
+           'regex is exponentially ambiguous. (R2) standard-library functions that raise on part of their domain (unicodedata.name without default, itertools.islice with a possibly negative bound, json / codecs / math ...) and str.encode without an error handler are partial operations like int() / chr(); so is print() of pattern text that is not escaped (!r / !a / repr / ascii) - UnicodeEncodeError on a lone surrogate. (R3) a custom-selector cycle whose interpreted call depth passes 400 frames at >= 30 frames per nesting level of the input counts as RecursionError, not as an unevaluable row.',
     'C08': '(R8, pipeline table) no entry point raises on a tree of unusual but legal content in several flavours; (R9) no navigation helper is '
            'part of a call cycle; (R10) the tuples match_range orders with < / > hold, by inferred type, numbers only in every position '
            '(a None or str member raises TypeError once the members before it compare equal). (R8 also) detached fragments: a legend with a control, a disabled fieldset, a lone radio button, a list item with dir=auto.',
